@@ -60,7 +60,8 @@ def parseKind (t : String) : Option EvKind :=
   match t with
   | "any" => some .any | "access" => some .access | "create" => some .create
   | "modname" => some .modifyName | "modother" => some .modifyOther
-  | "remove" => some .remove | "other" => some .other | _ => none
+  | "removefile" => some .removeFile | "removefolder" => some .removeFolder | "removeany" => some .removeOther
+  | "other" => some .other | _ => none
 
 /-- `<path> <isdir path> <isdir parent>` triples → notified paths and the file-system view. -/
 def parseTriples : List String → Option (List Path × List (Path × Bool))
@@ -93,7 +94,7 @@ def step (s : St) : List String → St × String
   | ["watch.id", d, root, path] =>
     match parseFlag d, parsePath root, parsePath path with
     | some d, some r, some p =>
-      (s, match idOfPath r p d with | some e => showEnt e | none => "none")
+      (s, match idOfPath r p none d with | some e => showEnt e | none => "none")
     | _, _, _ => (s, "bad-op")
   | "watch.ev" :: k :: triples =>
     match parseKind k, parseTriples triples with
